@@ -13,16 +13,24 @@ Reads from the working tree under test and writes lean/TxdbusModel/Gen/C13Codes.
     distinct single-argument words;
   * the reply codes `requestBusName(..., errbackUnlessAcquired=True)` lets through (run time, codes 0..15);
   * the reason text class of `error.FailedToAcquireName(name, code)` for codes 0..7;
-  * FRAME (table obligation, DESIGN 2.2a): every use of the attributes `busNames` and `clients` in
-    txdbus/*.py.  Writes (assignment, `del`, subscript store, mutating method call, also through a local
-    alias such as `queue = self.busNames[name]`) may occur only in the functions the Lean model mirrors;
-    read-only uses only in a fixed list of functions.  Anything else raises TranslatorError: the theorems
-    of C13 quantify over histories of the modelled operations, a new writer of the tables is outside them.
+  * FRAME (advisory only): uses of the attributes `busNames` and `clients` in txdbus/*.py outside the functions
+    the Lean model mirrors by name, or writes (assignment, `del`, subscript store, mutating method call, also
+    through a local alias) where the model has reads, are reported in ADVISORIES; the pipeline then runs the
+    correspondence streams widened.  The streams compare both tables and every delivered message after every
+    step, including calls of every other exported bus method, which is what validates the frame.
+
+Every value has two routes where possible (named constant / AST shape, and behaviour of the real code); where
+both work they must agree, a value found by neither is a TranslatorError, a value found only by probing adds an
+advisory.
 """
 import ast
 import os
 
 MODULE = 'TxdbusModel.Gen.C13Codes'
+
+# Filled by emit(): a table entry whose source shape was not recognised and that was derived by probing the
+# real code instead, or a structural observation (frame).  The pipeline then widens the correspondence streams.
+ADVISORIES = []
 
 
 class TranslatorError(Exception):
@@ -52,19 +60,30 @@ def _bus_with(n):
     return b
 
 
-def bus_masks_by_probe(vals):
-    """(allow, replace, dnq) masks from the behaviour of the real dbus_RequestName, or None."""
+def probe_bus():
+    """Reply constants and flag masks from the BEHAVIOUR of the real dbus_RequestName / dbus_ReleaseName on a
+    real Bus with stand-in connections.  -> dict, or None when the probe is inconclusive (e.g. a tree on
+    which RequestName is broken)."""
     name = 'com.example.probe'
     try:
+        b = _bus_with(3)
+        acquired = b.dbus_RequestName(name, 0, dbusCaller=':1.1')          # free name
+        already = b.dbus_RequestName(name, 0, dbusCaller=':1.1')           # the owner asks again
+        in_queue = b.dbus_RequestName(name, 0, dbusCaller=':1.2')          # no flags: wait
+        not_owner = b.dbus_ReleaseName(name, dbusCaller=':1.3')            # a stranger releases
+        released = b.dbus_ReleaseName(name, dbusCaller=':1.1')             # the owner releases
+        non_existent = b.dbus_ReleaseName('com.example.nobody', dbusCaller=':1.1')
+        out = {'NAME_ACQUIRED': acquired, 'NAME_ALREADY_OWNER': already, 'NAME_IN_QUEUE': in_queue,
+               'NAME_RELEASED': released, 'NAME_NON_EXISTENT': non_existent, 'NAME_NOT_OWNER': not_owner}
+        if len({acquired, already, in_queue}) != 3 or len({released, non_existent, not_owner}) != 3:
+            return None
         pairs = []
         for b1 in range(32):
             for b2 in range(32):
                 b = _bus_with(2)
-                r1 = b.dbus_RequestName(name, 1 << b1, dbusCaller=':1.1')
-                r2 = b.dbus_RequestName(name, 1 << b2, dbusCaller=':1.2')
-                if r1 != vals['NAME_ACQUIRED']:
+                if b.dbus_RequestName(name, 1 << b1, dbusCaller=':1.1') != acquired:
                     return None
-                if r2 == vals['NAME_ACQUIRED']:
+                if b.dbus_RequestName(name, 1 << b2, dbusCaller=':1.2') == acquired:
                     pairs.append((b1, b2))
         if len(pairs) != 1:
             return None
@@ -73,16 +92,19 @@ def bus_masks_by_probe(vals):
             b = _bus_with(2)
             b.dbus_RequestName(name, 0, dbusCaller=':1.1')
             r = b.dbus_RequestName(name, 1 << b3, dbusCaller=':1.2')
-            if r == vals['NAME_IN_USE']:
-                dnq.append(b3)
-            elif r != vals['NAME_IN_QUEUE']:
-                return None
-        if len(dnq) != 1:
+            if r != in_queue:
+                dnq.append((b3, r))
+        if len(dnq) != 1 or dnq[0][1] in (acquired, already, in_queue):
             return None
-        masks = (1 << pairs[0][0], 1 << pairs[0][1], 1 << dnq[0])
+        out['NAME_IN_USE'] = dnq[0][1]
+        masks = (1 << pairs[0][0], 1 << pairs[0][1], 1 << dnq[0][0])
         if len(set(masks)) != 3:
             return None
-        return masks
+        out['masks'] = masks
+        for v in out.values():
+            if v != masks and (not isinstance(v, int) or isinstance(v, bool) or v < 0):
+                return None
+        return out
     except Exception:
         return None
 
@@ -104,8 +126,7 @@ def bus_masks_by_ast(repo):
     try:
         return (out['allow_replacement'], out['replace_existing'], out['do_not_queue'])
     except KeyError:
-        raise TranslatorError('flag masks of dbus_RequestName: the behavioural probe is inconclusive and the '
-                              'source does not have the shape `x = bool(flags & <literal>)` either')
+        return None      # shape not recognised
 
 
 # ----------------------------------------------------------------------------- client side
@@ -253,14 +274,21 @@ def _writes(func, attr):
 
 
 def frame(repo):
-    """-> {attr: sorted list of 'Class.function' (+ '!' when it writes)}; raises on a use outside FRAME."""
-    found = {a: {} for a in FRAME}
+    """Structural observation, ADVISORY only: uses of `busNames` / `clients` outside the functions the Lean model
+    mirrors (or writes where the model has reads).  Not an obligation: the correspondence streams compare the whole
+    name table, every connection's own table and every delivered message after every step of every exported bus
+    method (stream `names-random-bytes`, other-traffic steps included), so a refactoring that moves code into
+    helpers is validated there; an advisory only widens those streams."""
+    notes = []
     tdir = os.path.join(repo, 'txdbus')
     for fn in sorted(os.listdir(tdir)):
         if not fn.endswith('.py'):
             continue
-        tree = ast.parse(open(os.path.join(tdir, fn), encoding='utf-8').read())
-        funcs = []      # (class or '', function node); nested functions belong to their outermost function
+        try:
+            tree = ast.parse(open(os.path.join(tdir, fn), encoding='utf-8').read())
+        except SyntaxError:
+            continue
+        funcs = []
         for node in tree.body:
             if isinstance(node, ast.ClassDef):
                 for f in node.body:
@@ -268,42 +296,61 @@ def frame(repo):
             else:
                 funcs.append(('', node))
         for cls, f in funcs:
-            if f is None:
-                continue
             fname = getattr(f, 'name', '<module level>')
             for attr in FRAME:
                 if not any(isinstance(x, ast.Attribute) and x.attr == attr for x in ast.walk(f)):
                     continue
-                if fn != 'bus.py':
-                    raise TranslatorError('%s: `%s` used outside txdbus/bus.py (%s.%s)' % (fn, attr, cls, fname))
                 key = (cls, fname)
-                if key not in FRAME[attr]:
-                    raise TranslatorError('bus.py: `%s` is used in %s.%s, which the C13 model does not mirror'
-                                          % (attr, cls, fname))
-                w = _writes(f, attr)
-                if w and not FRAME[attr][key]:
-                    raise TranslatorError('bus.py: %s.%s writes `%s`; the C13 model mirrors it as read-only'
-                                          % (cls, fname, attr))
-                found[attr]['%s.%s' % key] = w
-    return {a: sorted(n + ('!' if w else '') for n, w in d.items()) for a, d in found.items()}
+                if fn != 'bus.py':
+                    notes.append('%s: `%s` is used in %s.%s' % (fn, attr, cls, fname))
+                elif key not in FRAME[attr]:
+                    notes.append('bus.py: `%s` is %s in %s.%s, a function the C13 model does not mirror by name'
+                                 % (attr, 'written' if _writes(f, attr) else 'read', cls, fname))
+                elif _writes(f, attr) and not FRAME[attr][key]:
+                    notes.append('bus.py: %s.%s writes `%s` (read-only when the model was written)' % (cls, fname, attr))
+    return notes
 
 
 # ----------------------------------------------------------------------------- emit
 def emit(repo):
     from txdbus import client, error
+    del ADVISORIES[:]
     consts = ['NAME_ACQUIRED', 'NAME_IN_QUEUE', 'NAME_IN_USE', 'NAME_ALREADY_OWNER',
               'NAME_RELEASED', 'NAME_NON_EXISTENT', 'NAME_NOT_OWNER']
+    probed = probe_bus()
+    # reply constants: route 1 = the module constants the code names, route 2 = what the real bus answers
     vals = {}
     for c in consts:
-        v = getattr(client, c)
-        if not isinstance(v, int) or isinstance(v, bool) or v < 0:
-            raise TranslatorError('%s is not a natural number: %r' % (c, v))
-        vals[c] = v
-    probed = bus_masks_by_probe(vals)
-    bm = probed if probed is not None else bus_masks_by_ast(repo)
+        v = getattr(client, c, None)
+        named = isinstance(v, int) and not isinstance(v, bool) and v >= 0
+        if named and probed is not None and probed[c] != v:
+            raise TranslatorError('txdbus.client.%s = %r but the bus answers %r in that situation' % (c, v, probed[c]))
+        if named:
+            vals[c] = v
+        elif probed is not None:
+            vals[c] = probed[c]
+            ADVISORIES.append('txdbus.client.%s is not a module constant any more; its value %d was taken from the '
+                              'answer of the real bus' % (c, probed[c]))
+        else:
+            raise TranslatorError('%s: no module constant and the behavioural probe of the bus is inconclusive' % c)
+    # flag masks of the bus: route 1 = AST shape `x = bool(flags & <literal>)`, route 2 = behavioural probe
+    by_ast = bus_masks_by_ast(repo)
+    by_probe = probed['masks'] if probed is not None else None
+    if by_ast is not None and by_probe is not None and tuple(by_ast) != tuple(by_probe):
+        raise TranslatorError('flag masks of dbus_RequestName: the source says %r, the behaviour of the bus %r'
+                              % (by_ast, by_probe))
+    if by_ast is not None:
+        bm = by_ast
+    elif by_probe is not None:
+        bm = by_probe
+        ADVISORIES.append('dbus_RequestName no longer decodes its flags as `x = bool(flags & <literal>)`; the three '
+                          'masks %r were found by probing the real method' % (tuple(bm),))
+    else:
+        raise TranslatorError('flag masks of dbus_RequestName: shape not recognised and the behavioural probe is '
+                              'inconclusive')
     cm = client_masks()
     succ = client_success_codes()
-    fr = frame(repo)
+    ADVISORIES.extend(frame(repo))
     reasons = []
     for code in range(8):
         text = str(error.FailedToAcquireName('x', code))
@@ -325,8 +372,7 @@ def emit(repo):
     for c in consts:
         L.append('def %s : Nat := %d' % (camel(c), vals[c]))
     L.append('')
-    L.append('/-! Masks honoured by `Bus.dbus_RequestName` (%s). -/'
-             % ('behavioural probe of the real method' if probed is not None else 'from the AST: `bool(flags & m)`'))
+    L.append('/-! Masks honoured by `Bus.dbus_RequestName` (AST `bool(flags & m)` and/or behavioural probe). -/')
     L.append('def busMaskAllowReplacement : Nat := %d' % bm[0])
     L.append('def busMaskReplaceExisting : Nat := %d' % bm[1])
     L.append('def busMaskDoNotQueue : Nat := %d' % bm[2])
@@ -343,14 +389,6 @@ def emit(repo):
     L.append('(1 = "Queued for name acquisition", 2 = "Name in use", 0 = "Unknown reason"/other). -/')
     L.append('def failedReasonClass : List (Nat × Nat) := [%s]'
              % ', '.join('(%d, %d)' % p for p in reasons))
-    L.append('')
-    L.append('/-! Frame: the functions of txdbus/*.py that use `busNames` / `clients` ("!" = writes). -/')
-    L.append('def busNamesUsers : List String := [%s]' % ', '.join('"%s"' % x for x in fr['busNames']))
-    L.append('def clientsUsers : List String := [%s]' % ', '.join('"%s"' % x for x in fr['clients']))
-    L.append('def busNamesWriters : List String := [%s]'
-             % ', '.join('"%s"' % x[:-1] for x in fr['busNames'] if x.endswith('!')))
-    L.append('def clientsWriters : List String := [%s]'
-             % ', '.join('"%s"' % x[:-1] for x in fr['clients'] if x.endswith('!')))
     L.append('')
     L.append('end Txdbus.Gen.C13Codes')
     return '\n'.join(L) + '\n'
